@@ -45,8 +45,19 @@ func publisherChain(w world, n int) ([]coin.SignedBlock, *ledger.Model) {
 			want = "valid2["
 		}
 		cands := blockCandidates(m, inst)
+		if want == "valid2[" {
+			// prefer a two-transaction block whose order is NOT the arbitration order (fee per kB, then hash): a node that
+			// re-sorts what it is offered would store a different body than the signed one
+			for _, c := range cands {
+				if strings.HasPrefix(c.Name, want) && m.CheckBlock(&c.B) == "" && !arbitrationSorted(m, &c.B) {
+					b := c.B
+					pick = &b
+					break
+				}
+			}
+		}
 		for _, c := range cands {
-			if strings.HasPrefix(c.Name, want) {
+			if pick == nil && strings.HasPrefix(c.Name, want) {
 				b := c.B
 				pick = &b
 				break
@@ -67,6 +78,20 @@ func publisherChain(w world, n int) ([]coin.SignedBlock, *ledger.Model) {
 		m.Apply(*pick)
 	}
 	return m.Chain, m
+}
+
+// arbitrationSorted: are the block's transactions in the order an arbitrating node would sort them into?
+func arbitrationSorted(m *ledger.Model, b *coin.SignedBlock) bool {
+	sorted, err := coin.SortTransactions(b.Body.Transactions, func(t *coin.Transaction) (uint64, error) { return m.Fee(t).Uint64(), nil })
+	if err != nil || len(sorted) != len(b.Body.Transactions) {
+		return true
+	}
+	for i := range sorted {
+		if sorted[i].Hash() != b.Body.Transactions[i].Hash() {
+			return false
+		}
+	}
+	return true
 }
 
 func syncAlphabet(chain []coin.SignedBlock) []syncMsg {
@@ -149,6 +174,20 @@ func c33(r *engine.Run) {
 	N := r.Pick(4, 6)
 	w := worldsFor("follower")[0]
 	chain, _ := publisherChain(w, N)
+	unsorted := 0
+	{
+		m := ledger.New(w.modelParams())
+		m.Apply(w.genesisBlock())
+		for i := 1; i < len(chain); i++ {
+			if len(chain[i].Body.Transactions) > 1 && !arbitrationSorted(m, &chain[i]) {
+				unsorted++
+			}
+			m.Apply(chain[i])
+		}
+	}
+	if unsorted == 0 {
+		r.Broken("vacuous: the publisher chain has no multi-transaction block outside the arbitration order")
+	}
 	msgs := syncAlphabet(chain)
 	byName := map[string]syncMsg{}
 	var names []string
@@ -161,195 +200,216 @@ func c33(r *engine.Run) {
 	outcomes := engine.NewCounter()
 	genuine := func(b coin.SignedBlock) bool {
 		s := b.Head.BkSeq
-		return s < uint64(len(chain)) && string(b.Head.Bytes()) == string(chain[s].Head.Bytes()) && b.Sig == chain[s].Sig && string(b.Body.Bytes()) == string(chain[s].Body.Bytes())
+		// (the genesis block is created by every node itself; a block-creating node signs it with its own nonce, so for block 0 the
+		// signature is only required to verify - which the caller checks - not to be the same bytes)
+		return s < uint64(len(chain)) && string(b.Head.Bytes()) == string(chain[s].Head.Bytes()) && (b.Sig == chain[s].Sig || s == 0) && string(b.Body.Bytes()) == string(chain[s].Body.Bytes())
 	}
 	cfg := daemon.NewConfig().Daemon
 	cfg.DisableNetworking = false
-	reached := engine.NewSet()
 	converges := engine.NewCounter()
 
-	sp := engine.Space[*syncLive, string]{
-		New:   func() *syncLive { return &syncLive{n: freshNode(w)} },
-		Close: func(l *syncLive) { l.n.close() },
-		Ops: func(l *syncLive) []string {
-			if l.n.M == nil {
-				return nil // a diverged (dishonest) state was reported already and is not explored further
-			}
-			return names
-		},
-		Key: func(l *syncLive) string {
-			if l.n.M == nil {
-				return "diverged:" + l.n.key()
-			}
-			return l.n.key()
-		},
-		Apply: func(l *syncLive, name string, check bool) string {
-			if l.n.M == nil {
-				return "dead"
-			}
-			msg := byName[name]
-			v := l.n.V
-			m := l.n.M
-			d := &daemon.VerifDaemoner{Config: cfg,
-				HeadBkSeq:          v.HeadBkSeq,
-				ExecuteSignedBlock: v.ExecuteSignedBlock,
-				GetBlocksSince:     v.GetSignedBlocksSince}
-			headBefore := m.Head().Head.BkSeq
-			fail := func(sig, format string, a ...interface{}) {
-				if check {
-					r.Failf(sig, map[string]interface{}{"head_before": headBefore, "message": name}, "follower head=%d, message %s: %s", headBefore, name, fmt.Sprintf(format, a...))
+	var perWorld []map[string]interface{}
+	var res engine.BFSResult
+	// the syncing node is explored in both roles: an ordinary follower, and a node in block-creating (arbitrating) mode that
+	// catches up from peers (a stand-by or restarted publisher) - its ExecuteSignedBlock path sorts and filters transactions
+	for wi, w := range []world{worldsFor("follower")[0], worldsFor("publisher-offered")[0]} {
+		w := w
+		reached := engine.NewSet()
+		sp := engine.Space[*syncLive, string]{
+			New:   func() *syncLive { return &syncLive{n: freshNode(w)} },
+			Close: func(l *syncLive) { l.n.close() },
+			Ops: func(l *syncLive) []string {
+				if l.n.M == nil {
+					return nil // a diverged (dishonest) state was reported already and is not explored further
 				}
-			}
-			if msg.Ann {
-				pan, pm := catch(func() { daemon.VerifProcessAnnounceBlocks(d, msg.AnnSeq, "9.9.9.9:6000") })
+				return names
+			},
+			Key: func(l *syncLive) string {
+				if l.n.M == nil {
+					return "diverged:" + l.n.key()
+				}
+				return l.n.key()
+			},
+			Apply: func(l *syncLive, name string, check bool) string {
+				if l.n.M == nil {
+					return "dead"
+				}
+				msg := byName[name]
+				v := l.n.V
+				m := l.n.M
+				d := &daemon.VerifDaemoner{Config: cfg,
+					HeadBkSeq:          v.HeadBkSeq,
+					ExecuteSignedBlock: v.ExecuteSignedBlock,
+					GetBlocksSince:     v.GetSignedBlocksSince}
+				headBefore := m.Head().Head.BkSeq
+				fail := func(sig, format string, a ...interface{}) {
+					if check {
+						r.Failf(sig, map[string]interface{}{"head_before": headBefore, "message": name}, "follower head=%d, message %s: %s", headBefore, name, fmt.Sprintf(format, a...))
+					}
+				}
+				if msg.Ann {
+					pan, pm := catch(func() { daemon.VerifProcessAnnounceBlocks(d, msg.AnnSeq, "9.9.9.9:6000") })
+					if pan {
+						fail("AnnounceBlocksMessage.process:panic", "%s", pm)
+						return "panic"
+					}
+					wantReq := msg.AnnSeq > headBefore
+					gotReq := false
+					for _, s := range d.Sent {
+						if g, ok := s.Msg.(*daemon.GetBlocksMessage); ok && s.Addr == "9.9.9.9:6000" && g.LastBlock == headBefore && g.RequestedBlocks > 0 {
+							gotReq = true
+						}
+					}
+					if wantReq != gotReq {
+						fail("AnnounceBlocksMessage.process:request-above-head", "peer announced %d: request for blocks above %d sent=%v, expected %v (messages %d)", msg.AnnSeq, headBefore, gotReq, wantReq, len(d.Sent))
+					}
+					if wantReq {
+						return "ANNB:request"
+					}
+					return "ANNB:ignored"
+				}
+				pan, pm := catch(func() { daemon.VerifProcessGiveBlocks(d, msg.Blocks, "9.9.9.9:6000") })
 				if pan {
-					fail("AnnounceBlocksMessage.process:panic", "%s", pm)
+					fail("GiveBlocksMessage.process:panic", "%s", pm)
 					return "panic"
 				}
-				wantReq := msg.AnnSeq > headBefore
-				gotReq := false
-				for _, s := range d.Sent {
-					if g, ok := s.Msg.(*daemon.GetBlocksMessage); ok && s.Addr == "9.9.9.9:6000" && g.LastBlock == headBefore && g.RequestedBlocks > 0 {
-						gotReq = true
+				// reference semantics on the model: skip known (seq <= head at arrival), accept valid next blocks, stop at the first failure
+				accepted := 0
+				for i := range msg.Blocks {
+					b := msg.Blocks[i]
+					if b.Head.BkSeq <= headBefore {
+						continue
+					}
+					if m.CheckBlock(&b) != "" {
+						break
+					}
+					if !genuine(b) {
+						fail("reference:non-genuine-block-valid", "the reference rules accept a block that is not the publisher's block %d — alphabet problem", b.Head.BkSeq)
+					}
+					m.Apply(b)
+					accepted++
+				}
+				// real outcome
+				hs, _, err := v.HeadBkSeq()
+				if err != nil {
+					fail("follower:head-unreadable", "%v", err)
+					return "error"
+				}
+				if hs != m.Head().Head.BkSeq {
+					fail("follower:head-differs-from-longest-prefix-semantics", "follower head %d, reference (skip known, accept consecutive genuine, stop at first failure) %d", hs, m.Head().Head.BkSeq)
+				}
+				// safety: every stored block is the publisher's block at that height, byte for byte, with a signature by the publisher
+				stored, err := v.GetBlocksInRange(0, hs)
+				if err != nil {
+					fail("follower:blocks-unreadable", "%v", err)
+				}
+				for _, sb := range stored {
+					if !genuine(sb) {
+						fail("follower:holds-block-that-is-not-the-publishers", "stored block %d differs from the publisher's block (header %+v)", sb.Head.BkSeq, sb.Head)
+						l.n.M = nil
+						return "dishonest"
+					}
+					if e := cipher.VerifyPubKeySignedHash(idP.Pub, sb.Sig, sb.Block.HashHeader()); e != nil {
+						fail("follower:stored-signature-not-by-publisher", "block %d: %v", sb.Head.BkSeq, e)
 					}
 				}
-				if wantReq != gotReq {
-					fail("AnnounceBlocksMessage.process:request-above-head", "peer announced %d: request for blocks above %d sent=%v, expected %v (messages %d)", msg.AnnSeq, headBefore, gotReq, wantReq, len(d.Sent))
-				}
-				if wantReq {
-					return "ANNB:request"
-				}
-				return "ANNB:ignored"
-			}
-			pan, pm := catch(func() { daemon.VerifProcessGiveBlocks(d, msg.Blocks, "9.9.9.9:6000") })
-			if pan {
-				fail("GiveBlocksMessage.process:panic", "%s", pm)
-				return "panic"
-			}
-			// reference semantics on the model: skip known (seq <= head at arrival), accept valid next blocks, stop at the first failure
-			accepted := 0
-			for i := range msg.Blocks {
-				b := msg.Blocks[i]
-				if b.Head.BkSeq <= headBefore {
-					continue
-				}
-				if m.CheckBlock(&b) != "" {
-					break
-				}
-				if !genuine(b) {
-					fail("reference:non-genuine-block-valid", "the reference rules accept a block that is not the publisher's block %d — alphabet problem", b.Head.BkSeq)
-				}
-				m.Apply(b)
-				accepted++
-			}
-			// real outcome
-			hs, _, err := v.HeadBkSeq()
-			if err != nil {
-				fail("follower:head-unreadable", "%v", err)
-				return "error"
-			}
-			if hs != m.Head().Head.BkSeq {
-				fail("follower:head-differs-from-longest-prefix-semantics", "follower head %d, reference (skip known, accept consecutive genuine, stop at first failure) %d", hs, m.Head().Head.BkSeq)
-			}
-			// safety: every stored block is the publisher's block at that height, byte for byte, with a signature by the publisher
-			stored, err := v.GetBlocksInRange(0, hs)
-			if err != nil {
-				fail("follower:blocks-unreadable", "%v", err)
-			}
-			for _, sb := range stored {
-				if !genuine(sb) {
-					fail("follower:holds-block-that-is-not-the-publishers", "stored block %d differs from the publisher's block (header %+v)", sb.Head.BkSeq, sb.Head)
+				if hs != m.Head().Head.BkSeq {
 					l.n.M = nil
-					return "dishonest"
+					return "diverged"
 				}
-				if e := cipher.VerifyPubKeySignedHash(idP.Pub, sb.Sig, sb.Block.HashHeader()); e != nil {
-					fail("follower:stored-signature-not-by-publisher", "block %d: %v", sb.Head.BkSeq, e)
-				}
-			}
-			if hs != m.Head().Head.BkSeq {
-				l.n.M = nil
-				return "diverged"
-			}
-			// liveness clause: after an advance the follower announces and requests blocks above its new head
-			if accepted > 0 {
-				ann, req := false, false
-				for _, s := range d.Sent {
-					switch g := s.Msg.(type) {
-					case *daemon.AnnounceBlocksMessage:
-						if g.MaxBkSeq == hs {
-							ann = true
-						}
-					case *daemon.GetBlocksMessage:
-						if g.LastBlock == hs && g.RequestedBlocks > 0 {
-							req = true
-						}
-					}
-				}
-				if !req {
-					fail("GiveBlocksMessage.process:no-request-above-new-head", "advanced to %d but did not request blocks above it", hs)
-				}
-				if !ann {
-					fail("GiveBlocksMessage.process:no-announcement-of-new-head", "advanced to %d but did not announce it", hs)
-				}
-				return fmt.Sprintf("GIVB:advanced-by-%d", accepted)
-			}
-			if len(msg.Blocks) > 0 && strings.Contains(name, "forged") {
-				return "GIVB:forged-refused"
-			}
-			return "GIVB:no-advance"
-		},
-		Invariant: func(l *syncLive, h []string) {
-			if l.n.M == nil {
-				return
-			}
-			head := l.n.M.Head().Head.BkSeq
-			reached.Add(fmt.Sprint(head))
-			// the node also serves its chain correctly: GetBlocksMessage answered with the blocks above the asked height
-			d := &daemon.VerifDaemoner{Config: cfg, HeadBkSeq: l.n.V.HeadBkSeq, ExecuteSignedBlock: l.n.V.ExecuteSignedBlock, GetBlocksSince: l.n.V.GetSignedBlocksSince}
-			for last := uint64(0); last <= head+1; last++ {
-				d.Sent = nil
-				daemon.VerifProcessGetBlocks(d, last, 20, "8.8.8.8:6000")
-				var got []uint64
-				for _, s := range d.Sent {
-					if g, ok := s.Msg.(*daemon.GiveBlocksMessage); ok {
-						for _, b := range g.Blocks {
-							got = append(got, b.Head.BkSeq)
-							if !genuine(b) {
-								r.Failf("GetBlocksMessage.process:serves-non-genuine-block", h, "history %v: served block %d is not the publisher's", h, b.Head.BkSeq)
+				// liveness clause: after an advance the follower announces and requests blocks above its new head
+				if accepted > 0 {
+					ann, req := false, false
+					for _, s := range d.Sent {
+						switch g := s.Msg.(type) {
+						case *daemon.AnnounceBlocksMessage:
+							if g.MaxBkSeq == hs {
+								ann = true
+							}
+						case *daemon.GetBlocksMessage:
+							if g.LastBlock == hs && g.RequestedBlocks > 0 {
+								req = true
 							}
 						}
 					}
+					if !req {
+						fail("GiveBlocksMessage.process:no-request-above-new-head", "advanced to %d but did not request blocks above it", hs)
+					}
+					if !ann {
+						fail("GiveBlocksMessage.process:no-announcement-of-new-head", "advanced to %d but did not announce it", hs)
+					}
+					return fmt.Sprintf("GIVB:advanced-by-%d", accepted)
 				}
-				var want []uint64
-				for s := last + 1; s <= head; s++ {
-					want = append(want, s)
+				if len(msg.Blocks) > 0 && strings.Contains(name, "forged") {
+					return "GIVB:forged-refused"
 				}
-				if fmt.Sprint(got) != fmt.Sprint(want) {
-					r.Failf("GetBlocksMessage.process:wrong-blocks-served", h, "history %v: asked above %d, served %v want %v", h, last, got, want)
+				return "GIVB:no-advance"
+			},
+			Invariant: func(l *syncLive, h []string) {
+				if l.n.M == nil {
+					return
 				}
+				head := l.n.M.Head().Head.BkSeq
+				reached.Add(fmt.Sprint(head))
+				// the node also serves its chain correctly: GetBlocksMessage answered with the blocks above the asked height
+				d := &daemon.VerifDaemoner{Config: cfg, HeadBkSeq: l.n.V.HeadBkSeq, ExecuteSignedBlock: l.n.V.ExecuteSignedBlock, GetBlocksSince: l.n.V.GetSignedBlocksSince}
+				for last := uint64(0); last <= head+1; last++ {
+					d.Sent = nil
+					daemon.VerifProcessGetBlocks(d, last, 20, "8.8.8.8:6000")
+					var got []uint64
+					for _, s := range d.Sent {
+						if g, ok := s.Msg.(*daemon.GiveBlocksMessage); ok {
+							for _, b := range g.Blocks {
+								got = append(got, b.Head.BkSeq)
+								if !genuine(b) {
+									r.Failf("GetBlocksMessage.process:serves-non-genuine-block", h, "history %v: served block %d is not the publisher's", h, b.Head.BkSeq)
+								}
+							}
+						}
+					}
+					var want []uint64
+					for s := last + 1; s <= head; s++ {
+						want = append(want, s)
+					}
+					if fmt.Sprint(got) != fmt.Sprint(want) {
+						r.Failf("GetBlocksMessage.process:wrong-blocks-served", h, "history %v: asked above %d, served %v want %v", h, last, got, want)
+					}
+				}
+			},
+			MaxDepth: N + 3,
+			Workers:  8,
+		}
+		x := engine.BFS(sp)
+		for k, v := range x.Outcomes {
+			outcomes.AddN(k, v)
+		}
+		perWorld = append(perWorld, map[string]interface{}{"world": w.Name, "states": x.States, "transitions": x.Transitions, "exhaustive": x.Exhaustive, "honest_heads_reached": reached.Len()})
+		if wi == 0 {
+			res = x
+		} else {
+			res.States += x.States
+			res.Transitions += x.Transitions
+			res.Exhaustive = res.Exhaustive && x.Exhaustive
+			for k, v := range x.Outcomes {
+				res.Outcomes[k] += v
 			}
-		},
-		MaxDepth: N + 3,
-		Workers:  8,
-	}
-	res := engine.BFS(sp)
-	for k, v := range res.Outcomes {
-		outcomes.AddN(k, v)
-	}
-	// graph property: the honest states are exactly heads 0..N (every prefix reachable, nothing else), and from each of them the
-	// exact answer to the follower's request (blocks head+1..N) leads to head N — checked by the transitions above, since
-	// GIVB[head+1..N] is in the alphabet of every state and its outcome is compared with the reference.
-	if reached.Len() != N+1 {
-		r.Failf("sync:not-all-prefixes-reachable", reached.Len(), "reachable honest heads: %d, expected %d (0..%d)", reached.Len(), N+1, N)
+		}
+		// graph property: the honest states are exactly heads 0..N (every prefix reachable, nothing else), and from each of them the
+		// exact answer to the follower's request (blocks head+1..N) leads to head N — checked by the transitions above, since
+		// GIVB[head+1..N] is in the alphabet of every state and its outcome is compared with the reference.
+		if reached.Len() != N+1 {
+			r.Failf("sync:not-all-prefixes-reachable", map[string]interface{}{"world": w.Name, "reached": reached.Len()}, "%s: reachable honest heads: %d, expected %d (0..%d)", w.Name, reached.Len(), N+1, N)
+		}
 	}
 	_ = converges
-	if outcomes.Get("GIVB:forged-refused") == 0 || outcomes.Get("ANNB:request") == 0 || res.States < N+1 {
+	if outcomes.Get("GIVB:forged-refused") == 0 || outcomes.Get("ANNB:request") == 0 || res.States < 2*(N+1) {
 		r.Broken("vacuous: %v", outcomes.Map())
 	}
 	cov := res.Coverage("BFS to fixpoint over follower states; every message of the alphabet (all contiguous GIVB ranges incl. genesis, duplicates, reversed, gaps, out-of-order, five forged variants of every block alone / after its predecessor / before its successor, empty, ANNB(0..N+1)) is processed by the real GiveBlocksMessage/AnnounceBlocksMessage handlers over a real follower Visor in every reachable state; oracle: head = reference semantics (skip known, accept consecutive model-valid blocks, stop at first failure), every stored block byte-identical to the publisher's, request+announcement after every advance, request after ANNB above head; GetBlocksMessage served correctly in every state")
 	cov["messages_in_alphabet"] = len(names)
 	cov["publisher_chain_blocks"] = N
-	cov["honest_heads_reached"] = reached.Len()
+	cov["per_world"] = perWorld
+	cov["multi_transaction_blocks_outside_arbitration_order"] = unsorted
 	r.Assumptions = append(r.Assumptions, "chain of N blocks, one peer address; network transport and message framing are C22's subject; periodic re-request timer of the daemon is not modelled (requests observed on advance and on announcement)")
 	r.Finish(cov)
 }
